@@ -1,3 +1,4 @@
+mod crash;
 mod drivers;
 mod logcap;
 mod world;
@@ -54,6 +55,19 @@ fn main() {
     let args: Vec<String> = std::env::args().collect();
     match args.get(1).map(|s| s.as_str()) {
         Some("smoke") => smoke(args.get(2).map(|s| s.as_str()).unwrap_or("mem")),
+        Some("crash") => {
+            // crash <out> seed=N stride=S kinds=a,b,c
+            let out = args.get(2).expect("out path");
+            let mut kv = std::collections::HashMap::new();
+            for a in &args[3..] {
+                if let Some((k, v)) = a.split_once('=') { kv.insert(k.to_string(), v.to_string()); }
+            }
+            let seed: u64 = kv.get("seed").map(|s| s.parse().unwrap()).unwrap_or(1);
+            let stride: u64 = kv.get("stride").map(|s| s.parse().unwrap()).unwrap_or(1);
+            let kinds_s = kv.get("kinds").cloned().unwrap_or("messages,send,commit,race,proposal,own,welcome,create,txatomic".to_string());
+            let kinds: Vec<&str> = kinds_s.split(',').collect();
+            crash::run_crash(out, seed, stride, &kinds);
+        }
         Some("rand") => {
             // rand <out> key=value...
             let out = args.get(2).expect("out path");
